@@ -47,6 +47,10 @@ CHECKS = {
    technique="TLA+ spec MassGuess over the generated mass table; MC_MassGuess enumerates every table mass and boundary (TLC checks the distinguishability corollary); answers of guess_elements_from_masses and load_lmpdat validated by TLC (Trace_MassGuess)",
    text="Exhaustive over the table the repository ships: each tabulated mass, +-(tol-2u) and +-(tol+2u) around it, both sides of every midpoint between mass neighbours (covering all out-of-order pairs), non-atomic masses and mixed lists, for several tolerances; TLC decides membership in the nearest-within-tolerance set and the all-types fallback.",
    note="Trusted: harness/massops.py (writes a minimal LAMMPS file, calls the two entry points), table generator harness/gen.py, TLC. Masses exactly at +-tol are excluded (decided by float rounding).", exhaustive=True),
+ "C15": dict(engine="cifops", ref="DESIGN.md 4/C15, 3.6",
+   technique="TLA+ spec CifFile (round trip and reader rules) + MC_Cif case enumeration by TLC + TLC trace validation of mofun-written text (own CIF tokenizer), re-read structures and reader-only documents, ASE as independent reader",
+   text="Round trips of library fragments (terms incl. impropers, extra atom/bond columns) in an orthorhombic and two triclinic cells given by exact cell parameters, coordinates inside / outside / on the boundary, fractional and Cartesian output; reader-only documents with ten space-group spellings (P1 forms accepted, all others incl. 'P 1 21/c 1' must be rejected), coordinates outside [0,1), standard uncertainties, Cartesian files, bond loops; TLC decides every loop entry, wrapping modulo 1, cell parameters, label resolution.",
+   note="Trusted: harness/cifops.py (CIF tokenizer, document renderer, fractional projection), ASE for the independent reading, TLC; installed PyCifRW 5.0.1. Coordinates are multiples of 1/80 of the cell vectors (exact at the 4 printed decimals)."),
  "C16": dict(engine="cmlops", ref="DESIGN.md 4/C16",
    technique="TLA+ spec CmlDoc; MC_Cml enumerates documents (id schemes, bond lists, coordinate notations) exhaustively within bounds; loaded objects validated by TLC (Trace_Cml)",
    text="Every document with up to 3 (quick) / 4 (thorough) atoms, five id schemes including shuffled Avogadro-style ids and arbitrary strings, every bond sequence up to 2 / 3 entries in both reference directions including none, coordinates of both signs in plain and exponent notation; loaded by path, by open file and by load_cml, all three compared.",
@@ -74,7 +78,8 @@ m = {"version": 1,
      "hooks": {"guard": "MOFUN_VERIF", "enable": "no source hooks are needed: the harness imports /repo in place (editable install) and observes public state; bin/check exports MOFUN_VERIF=1",
                "baseline_off_cmd": "cd /repo && /venv/bin/python -m pytest -ra -q -p no:cacheprovider --timeout=900 --continue-on-collection-errors",
                "source_commits": [], "add_only": True},
-     "engines": [{"name": "lmpops", "path": "harness/lmpops.py", "serves_properties": ["C13", "C09"], "kind_free_text": "TLC validation of written files (independent tokenizer) and re-read structures"},
+     "engines": [{"name": "cifops", "path": "harness/cifops.py", "serves_properties": ["C15"], "kind_free_text": "case enumeration by TLC + TLC validation of written text / re-read structures / reader-only documents"},
+                 {"name": "lmpops", "path": "harness/lmpops.py", "serves_properties": ["C13", "C09"], "kind_free_text": "TLC validation of written files (independent tokenizer) and re-read structures"},
                  {"name": "massops", "path": "harness/massops.py", "serves_properties": ["C14"], "kind_free_text": "exhaustive case enumeration by TLC + TLC validation of answers"},
                  {"name": "cmlops", "path": "harness/cmlops.py", "serves_properties": ["C16"], "kind_free_text": "document enumeration by TLC + TLC validation of loaded objects"},
                  {"name": "replaceops", "path": "harness/replaceops.py", "serves_properties": ["C04", "C05", "C06", "C07", "C08"],
